@@ -1919,3 +1919,145 @@ func (g *EffGraph) arityObligations() []*EffObl {
 	out = append(out, &EffObl{Name: "effects/arity-registrations-found", Kind: "cover", Desc: fmt.Sprintf("vacuity guard: %d registrations analysed", n), OK: n > 50})
 	return out
 }
+
+// regInfo: one Go function registration (for the sweep generator, tools/sweep.py).
+type regInfo struct {
+	Pkg, Func, Lua string
+	Arity         int
+	HasEtc        bool
+	Loops         int
+	Contract      bool
+}
+
+func (g *EffGraph) registrationInfos() []regInfo {
+	var out []regInfo
+	seen := map[*ssa.Function]bool{}
+	for _, fn := range g.funcs {
+		for _, b := range fn.Blocks {
+			for _, in := range b.Instrs {
+				call, ok := in.(*ssa.Call)
+				if !ok {
+					continue
+				}
+				callee := call.Call.StaticCallee()
+				if callee == nil || callee.Pkg == nil || !strings.HasSuffix(callee.Pkg.Pkg.Path(), "/runtime") {
+					continue
+				}
+				var fv, nameV, arV, etcV ssa.Value
+				switch callee.Name() {
+				case "SetEnvGoFunc":
+					if len(call.Call.Args) == 6 {
+						fv, nameV, arV, etcV = call.Call.Args[3], call.Call.Args[2], call.Call.Args[4], call.Call.Args[5]
+					}
+				case "NewGoFunction":
+					if len(call.Call.Args) == 4 {
+						fv, nameV, arV, etcV = call.Call.Args[0], call.Call.Args[1], call.Call.Args[2], call.Call.Args[3]
+					}
+				}
+				if fv == nil || fn.Name() == "SetEnvGoFunc" {
+					continue
+				}
+				body := funcOf(fv)
+				ar, okA := constUint(arV)
+				if body == nil || !okA || seen[body] || body.Pkg == nil || body.Parent() != nil {
+					continue
+				}
+				seen[body] = true
+				lname := ""
+				if c, ok := nameV.(*ssa.Const); ok && c.Value != nil && c.Value.Kind() == constant.String {
+					lname = constant.StringVal(c.Value)
+				}
+				hasEtc := false
+				if c, ok := etcV.(*ssa.Const); ok && c.Value != nil && c.Value.Kind() == constant.Bool {
+					hasEtc = constant.BoolVal(c.Value)
+				}
+				_, has := g.eng.contracts[fnKey(body)]
+				out = append(out, regInfo{Pkg: body.Pkg.Pkg.Path(), Func: body.Name(), Lua: lname, Arity: int(ar), HasEtc: hasEtc, Loops: countLoops(body), Contract: has})
+			}
+		}
+	}
+	sort.Slice(out, func(i, j int) bool { return out[i].Pkg+out[i].Func < out[j].Pkg+out[j].Func })
+	return out
+}
+
+func countLoops(fn *ssa.Function) int {
+	// loop headers: blocks with a predecessor they dominate
+	n := 0
+	for _, b := range fn.Blocks {
+		for _, p := range b.Preds {
+			if b.Dominates(p) {
+				n++
+				break
+			}
+		}
+	}
+	return n
+}
+
+// ---------------------------------------------------------------------------
+// Stable fields: write-site audit
+// ---------------------------------------------------------------------------
+// `stable T.f written-by F...` lets the SMT side keep T.f across calls with
+// unknown effects.  The audit checks the half of the argument that is about the
+// code: the only functions of the module that store to T.f - directly, or by
+// overwriting a whole T - are the listed ones.  (The other half - the object is
+// not handed to a listed writer while the function under contract runs - is
+// the assumption recorded with the declaration.)
+
+func (g *EffGraph) stableObligations() []*EffObl {
+	var out []*EffObl
+	for _, sf := range allStable() {
+		allowed := map[string]bool{}
+		for _, w := range sf.Writers {
+			allowed[w] = true
+		}
+		var bad []string
+		nsites := 0
+		for _, fn := range g.funcs {
+			short := fn.Name()
+			if recv := fn.Signature.Recv(); recv != nil {
+				short = "(" + types.TypeString(recv.Type(), func(*types.Package) string { return "" }) + ")." + fn.Name()
+			}
+			for _, b := range fn.Blocks {
+				for _, in := range b.Instrs {
+					st, ok := in.(*ssa.Store)
+					if !ok {
+						continue
+					}
+					hit := false
+					if fa, ok := st.Addr.(*ssa.FieldAddr); ok {
+						if pt, ok := fa.X.Type().Underlying().(*types.Pointer); ok {
+							if n, ok := pt.Elem().(*types.Named); ok && n.Obj().Pkg() != nil && n.Obj().Pkg().Path() == sf.Pkg && n.Obj().Name() == sf.Type {
+								if stt, ok := n.Underlying().(*types.Struct); ok && fa.Field < stt.NumFields() && stt.Field(fa.Field).Name() == sf.Field {
+									hit = true
+								}
+							}
+						}
+					} else if pt, ok := st.Addr.Type().Underlying().(*types.Pointer); ok {
+						if n, ok := pt.Elem().(*types.Named); ok && n.Obj().Pkg() != nil && n.Obj().Pkg().Path() == sf.Pkg && n.Obj().Name() == sf.Type {
+							if _, isAlloc := st.Addr.(*ssa.Alloc); !isAlloc { // initialising a fresh local/new object is construction
+								hit = true
+							}
+						}
+					}
+					if !hit {
+						continue
+					}
+					nsites++
+					if !allowed[short] && !allowed[fn.Name()] {
+						bad = append(bad, fmt.Sprintf("%s at %s", short, relPos(g.eng, g.eng.fset.Position(st.Pos()))))
+					}
+				}
+			}
+		}
+		o := &EffObl{Name: sf.Pkg + "." + sf.Type + "." + sf.Field + "/effect:stable", Kind: "effect",
+			Desc: fmt.Sprintf("only %v store to %s.%s (%d store sites found)", sf.Writers, sf.Type, sf.Field, nsites)}
+		if len(bad) == 0 {
+			o.OK = true
+		} else {
+			o.Witness = strings.Join(bad, "; ")
+		}
+		out = append(out, o)
+	}
+	return out
+}
